@@ -86,6 +86,89 @@ ONE_SHOT_HINTS = [
 ]
 
 
+# ---- annotated assignments in a module checked by the import hook -----------------------------------------------
+# The hook adds a check after `target: hint = value`.  What the check looks at must be the stored value, looked at
+# read-only: every user expression runs as often as in the unhooked module, one-shot sources stay where they were.
+CLAW_MODULE = '''
+from collections.abc import Iterator, Iterable
+from typing import Optional, Union, List
+EVALS = []
+
+
+def tick(name, v):
+    EVALS.append(name)
+    return v
+
+
+class Slot:
+    pass
+
+
+class Holder:
+    def __init__(self):
+        self.slot = Slot()
+        self.slot.inner = Slot()
+        self.items = [Slot(), Slot()]
+
+
+HOLDERS = [Holder(), Holder()]
+
+
+def run(it, make_list, make_iter):
+    h = Holder()
+    stored = []
+{body}
+    return stored
+'''
+CLAW_TARGETS = ('v{i}', 'h.a{i}', 'h.slot.head', 'h.slot.inner.head', 'h.items[1].head', 'HOLDERS[0].slot.head',
+                'HOLDERS[1].items[0].head', '(h.slot).head')
+CLAW_VALUES = (
+    # (hint, value expression, kind)
+    ('int', 'next(it)', 'int'), ('int', "tick('t{i}', next(it))", 'int'), ('Optional[int]', 'next(it)', 'int'),
+    ('Union[int, str]', "tick('t{i}', next(it))", 'int'),
+    ('list[int]', "make_list('l{i}')", 'list'), ('List[int]', "tick('t{i}', make_list('l{i}'))", 'list'),
+    ('Iterable[int]', "make_list('l{i}')", 'list'),
+    ('Iterator[int]', "make_iter('g{i}')", 'iter'), ('Iterable[int]', "make_iter('g{i}')", 'iter'),
+)
+
+
+def gen_claw_module(rng):
+    lines, plan = [], []
+    for i in range(rng.choice((2, 3, 4, 5))):
+        target = rng.choice(CLAW_TARGETS).format(i=i)
+        hint, value, kind = rng.choice(CLAW_VALUES)
+        lines.append(f'    {target}: {hint} = {value.format(i=i)}')
+        lines.append(f'    stored.append({target})')
+        plan.append((target, hint, kind))
+    return CLAW_MODULE.format(body='\n'.join(lines)), plan
+
+
+def run_claw_module(mod):
+    """Drive mod.run with counting sources; returns what an outside observer can tell afterwards."""
+    made = []
+    it = iter(range(100, 140))
+
+    def make_list(name):
+        made.append(name)
+        return spies.SpyList([1, 2, 3])
+
+    def make_iter(name):
+        made.append(name)
+        return spies.PyIterator([7, 8, 9], _tag='CLAW')
+    spies.reset()
+    stored = mod.run(it, make_list, make_iter)
+    bad_events = sorted({ev for _, ev, _ in spies.events() if ev not in spies.READONLY_EVENTS})
+    shape = []
+    for v in stored:
+        if isinstance(v, spies.PyIterator):
+            shape.append(('iter', v.drain()))
+        elif isinstance(v, list):
+            shape.append(('list', list.copy(v)))
+        else:
+            shape.append(('value', v))
+    return dict(evals=list(mod.EVALS), made=made, source_next=next(it), stored=shape, spy_mutations=bad_events)
+
+
 def make_one_shot(fam, items):
     if fam == 'generator':
         return spies.make_generator(items, 'ONE'), items
@@ -265,6 +348,56 @@ def main():
                         W.violation('non-readonly-call:' + bad[0][1], f'sending spies into a decorated {kind} (-> {h}) touched them: {bad[:4]}',
                                     'directed', hi, dict(kind=kind, hint=str(h), conf=cname))
 
+    # ---- annotated assignments under the import hook ---------------------------------------------------------
+    import importlib
+    import shutil
+    import tempfile
+    from beartype.claw import beartype_package
+    root = tempfile.mkdtemp(prefix='vc10_')
+    sys.path.insert(0, root)
+    sys.dont_write_bytecode = True
+    try:
+        for idx in W.cases('claw', 60 if quick else 2000, frac=.1):
+            rng = W.rng('claw', idx)
+            src, plan = gen_claw_module(rng)
+            res = {}
+            for variant in ('plain', 'hooked'):
+                pkg = f'vc10p{os.getpid()}_{idx}{variant}'
+                os.makedirs(os.path.join(root, pkg))
+                open(os.path.join(root, pkg, '__init__.py'), 'w').close()
+                with open(os.path.join(root, pkg, 'mod.py'), 'w') as f:
+                    f.write(src)
+                importlib.invalidate_caches()
+                if variant == 'hooked':
+                    beartype_package(pkg)
+                try:
+                    mod = importlib.import_module(pkg + '.mod')
+                    res[variant] = run_claw_module(mod)
+                except Exception as e:   # noqa
+                    res[variant] = dict(error=f'{type(e).__name__}: {short(e, 200)}')
+                finally:
+                    sys.modules.pop(pkg + '.mod', None)
+                    sys.modules.pop(pkg, None)
+            W.evaluate(('claw', tuple(plan)))
+            W.count('claw_modules')
+            W.count('claw_assignments', len(plan))
+            for t, _, _ in plan:
+                W.add('claw_target_forms', t.rstrip('0123456789'))
+            if 'error' in res['plain']:
+                W.count('claw_generator_slip')
+                continue
+            W.count('checks', len(plan))
+            if res['hooked'] != res['plain']:
+                field = next((k for k in res['plain'] if res['hooked'].get(k) != res['plain'][k]), 'error')
+                W.violation(f'claw-assignment:{field}-differs',
+                            f'annotated assignments {plan}: the hooked module differs from the unhooked one in {field}: '
+                            f'hooked {short(res["hooked"].get(field, res["hooked"]), 200)} vs plain {short(res["plain"][field], 200)}',
+                            'claw', idx, dict(source=src, hooked=repr(res['hooked'])[:1500], plain=repr(res['plain'])[:1500]))
+    finally:
+        sys.path.remove(root)
+        shutil.rmtree(root, ignore_errors=True)
+
+
     # ---- (2) one-shot subjects with planted items -------------------------------------
     for idx in W.cases('oneshot', limit, frac=.5):
         rng = W.rng('oneshot', idx)
@@ -387,6 +520,7 @@ def main():
         run_all('spy', idx, node.src, node.hint(), sx, cs, r, 'spy', after)
 
     W.need('checks', 3000)
+    W.need('claw_assignments', 30)
     W.need('oneshot_checks', 500)
     W.need('spy_events', 3000)
     W.need('verdict.accept', 300)
